@@ -8,11 +8,14 @@
   `set_char_classes` overwrite.  Everything after `normalize` (`tokTail`) reads the characters only through
     * `isSepChar` of every character (split),
     * `isAlnum` of every character (strip),
-    * the lower-cased array `lowerChars` (set_pos, set_char_classes, set_stem and the result itself).
+    * `lower1` of every character (lower, which since the D5 fix maps `lower1` over the whole array; set_pos,
+      set_char_classes, set_stem and the result itself read only that lower-cased array).
   `tokTail_congr` is that statement.  The three variants then reduce to facts about `normChars`:
     * decomposition  : `compose (decompAt s mask) = compose s`          (`ComposeClosed` table, mark-free `s`)
     * folding        : `normChars (foldAt s mask) = normChars s`        (`FoldClosed` + `FoldMarkFree` tables)
     * re-casing      : `(normChars s').map lower1 = (normChars s).map lower1` (`CaseClosedOn`, oracle-relative)
+  Since `Text.lower` lower-cases unconditionally (finding D5 fixed) the third view is literally `map lower1`, and
+  the former hypothesis "characters that are not upper-case are unchanged by lower-casing" is gone.
 -/
 import LucidProofs.Lemmas.Facts
 import LucidProofs.Lemmas.Normalize
@@ -114,18 +117,12 @@ theorem tokenizeQuery_src_eq (E : Env) (s : List Nat) :
 theorem tokenizeRecord_src_eq (E : Env) (s : List Nat) :
     tokenizeRecord Gen.srcProg E s = tokTail E ((Text.fromChars s).normalize E) := rfl
 
-/-- what `Text.lower` does to the character array -/
-def lowerChars (E : Env) (cs : List Nat) : List Nat :=
-  if cs.any E.U.isUppercase then cs.map E.U.lower1 else cs
+/-- what `Text.lower` does to the character array: `lower1` on every character, unconditionally -/
+theorem lower_chars (E : Env) (t : Text) : (t.lower E).chars = t.chars.map E.U.lower1 := rfl
 
-theorem lower_chars (E : Env) (t : Text) : (t.lower E).chars = lowerChars E t.chars := by
-  unfold Text.lower lowerChars; split <;> rfl
+theorem lower_words (E : Env) (t : Text) : (t.lower E).words = t.words := rfl
 
-theorem lower_words (E : Env) (t : Text) : (t.lower E).words = t.words := by
-  unfold Text.lower; split <;> rfl
-
-theorem lower_source (E : Env) (t : Text) : (t.lower E).source = t.source := by
-  unfold Text.lower; split <;> rfl
+theorem lower_source (E : Env) (t : Text) : (t.lower E).source = t.source := rfl
 
 theorem tokTail_source (E : Env) (t : Text) : (tokTail E t).source = t.source := by
   show (((t.split E sepPat).strip E [CharClass.notAlphaNum]).lower E).source = t.source
@@ -202,15 +199,15 @@ theorem stripWord_congr (p : Nat → Bool) (cs cs' : List Nat) (h : cs'.map p = 
   have e2 := takeWhile_length_congr p _ _ hr
   simp only [stripWord, List.length_take, e1, e2, hl]
 
-/-- **The tokenizer tail reads the characters only through separator-ness, alphanumeric-ness and the
-    lower-cased array.** Two one-word states (as left by `normalize`/`fin`) whose words agree in `lo`, `hi`,
+/-- **The tokenizer tail reads the characters only through three views: `map isSepChar`, `map isAlnum` and
+    `map lower1`.** Two one-word states (as left by `normalize`/`fin`) whose words agree in `lo`, `hi`,
     `fin` and whose character arrays agree in these three respects give the same words, characters and
     classes; `source` is passed through untouched. -/
 theorem tokTail_congr (E : Env) (t t' : Text) (w w' : WordShape)
     (ht : t.words = [w]) (ht' : t'.words = [w']) (hlo : w'.lo = w.lo) (hhi : w'.hi = w.hi) (hfin : w'.fin = w.fin)
     (hsep : t'.chars.map (isSepChar E.U E.K) = t.chars.map (isSepChar E.U E.K))
     (haln : t'.chars.map E.U.isAlnum = t.chars.map E.U.isAlnum)
-    (hlow : lowerChars E t'.chars = lowerChars E t.chars) :
+    (hlow : t'.chars.map E.U.lower1 = t.chars.map E.U.lower1) :
     (tokTail E t').sameUpToSource (tokTail E t) := by
   -- split
   have h1 : (t'.split E sepPat).words = (t.split E sepPat).words := by
@@ -249,38 +246,36 @@ theorem tokTail_congr (E : Env) (t t' : Text) (w w' : WordShape)
 
 /-- query pipeline: the result depends on the input only through the three views of `normChars` -/
 theorem tokenizeQuery_congr_views (E : Env) (s s' : List Nat)
-    (hlen : (normChars E s').length = (normChars E s).length)
     (hsep : (normChars E s').map (isSepChar E.U E.K) = (normChars E s).map (isSepChar E.U E.K))
     (haln : (normChars E s').map E.U.isAlnum = (normChars E s).map E.U.isAlnum)
-    (hlow : lowerChars E (normChars E s') = lowerChars E (normChars E s)) :
+    (hlow : (normChars E s').map E.U.lower1 = (normChars E s).map E.U.lower1) :
     (tokenizeQuery Gen.srcProg E s').sameUpToSource (tokenizeQuery Gen.srcProg E s) := by
   rw [tokenizeQuery_src_eq, tokenizeQuery_src_eq, normalize_fromChars_shape, normalize_fromChars_shape]
   exact tokTail_congr E _ _
     { offset := 0, lo := 0, hi := (normChars E s).length, stem := s.length, pos := none, fin := false }
     { offset := 0, lo := 0, hi := (normChars E s').length, stem := s'.length, pos := none, fin := false }
-    rfl rfl rfl hlen rfl hsep haln hlow
+    rfl rfl rfl (by simpa using congrArg List.length hlow) rfl hsep haln hlow
 
 /-- record pipeline, same statement -/
 theorem tokenizeRecord_congr_views (E : Env) (s s' : List Nat)
-    (hlen : (normChars E s').length = (normChars E s).length)
     (hsep : (normChars E s').map (isSepChar E.U E.K) = (normChars E s).map (isSepChar E.U E.K))
     (haln : (normChars E s').map E.U.isAlnum = (normChars E s).map E.U.isAlnum)
-    (hlow : lowerChars E (normChars E s') = lowerChars E (normChars E s)) :
+    (hlow : (normChars E s').map E.U.lower1 = (normChars E s).map E.U.lower1) :
     (tokenizeRecord Gen.srcProg E s').sameUpToSource (tokenizeRecord Gen.srcProg E s) := by
   rw [tokenizeRecord_src_eq, tokenizeRecord_src_eq, normalize_fromChars_shape, normalize_fromChars_shape]
   exact tokTail_congr E _ _
     { offset := 0, lo := 0, hi := (normChars E s).length, stem := s.length, pos := none, fin := true }
     { offset := 0, lo := 0, hi := (normChars E s').length, stem := s'.length, pos := none, fin := true }
-    rfl rfl rfl hlen rfl hsep haln hlow
+    rfl rfl rfl (by simpa using congrArg List.length hlow) rfl hsep haln hlow
 
 /-- equal normalised characters ⇒ equal query tokenisation up to `source` -/
 theorem tokenizeQuery_of_normChars (E : Env) {s s' : List Nat} (h : normChars E s' = normChars E s) :
     (tokenizeQuery Gen.srcProg E s').sameUpToSource (tokenizeQuery Gen.srcProg E s) :=
-  tokenizeQuery_congr_views E s s' (by rw [h]) (by rw [h]) (by rw [h]) (by rw [h])
+  tokenizeQuery_congr_views E s s' (by rw [h]) (by rw [h]) (by rw [h])
 
 theorem tokenizeRecord_of_normChars (E : Env) {s s' : List Nat} (h : normChars E s' = normChars E s) :
     (tokenizeRecord Gen.srcProg E s').sameUpToSource (tokenizeRecord Gen.srcProg E s) :=
-  tokenizeRecord_congr_views E s s' (by rw [h]) (by rw [h]) (by rw [h]) (by rw [h])
+  tokenizeRecord_congr_views E s s' (by rw [h]) (by rw [h]) (by rw [h])
 
 /-- equal composed forms ⇒ identical tokenisation, `source` included (compose runs first and rewrites it) -/
 theorem tokenizeQuery_of_compose (E : Env) {s s' : List Nat} (h : compose E.T s' = compose E.T s) :
@@ -608,10 +603,6 @@ def CaseClosedOn (E : Env) (cs : List Nat) : Prop :=
 def SepLowerOn (E : Env) (cs : List Nat) : Prop :=
   ∀ c ∈ cs, isSepChar E.U E.K (E.U.lower1 c) = isSepChar E.U E.K c
 
-/-- characters of `cs` that are not upper-case are their own lower-case form -/
-def NoLowerChangeOn (E : Env) (cs : List Nat) : Prop :=
-  ∀ c ∈ cs, E.U.isUppercase c = false → E.U.lower1 c = c
-
 theorem flatMap_red1_lower (E : Env) (s s' : List Nat) (h : s'.map E.U.lower1 = s.map E.U.lower1)
     (hcc : CaseClosedOn E (s ++ s')) :
     (s'.flatMap (red1 E.T.reduce)).map E.U.lower1 = (s.flatMap (red1 E.T.reduce)).map E.U.lower1 := by
@@ -648,50 +639,25 @@ theorem map_via_lower {β : Type} (E : Env) (f : Nat → β) (n n' : List Nat)
     exact (hl c hc).symm
   rw [e n (fun c hc => hf c (List.mem_append_left _ hc)), e n' (fun c hc => hf c (List.mem_append_right _ hc)), h]
 
-theorem lowerChars_eq_map (E : Env) (n : List Nat) (h : NoLowerChangeOn E n) : lowerChars E n = n.map E.U.lower1 := by
-  unfold lowerChars
-  split
-  · rfl
-  · rename_i hu
-    have hu' : ∀ c ∈ n, E.U.isUppercase c = false := by
-      intro c hc
-      cases hcu : E.U.isUppercase c with
-      | false => rfl
-      | true => exact absurd (List.any_eq_true.2 ⟨c, hc, hcu⟩) hu
-    symm
-    calc n.map E.U.lower1 = n.map id := List.map_congr_left (fun c hc => h c hc (hu' c hc))
-      _ = n := List.map_id n
-
 /-- **Re-casing, at the level of normalised characters.** If the two normalised arrays agree after
     lower-casing every character, the query tokenisations agree up to `source`, provided lower-casing
-    preserves separator-ness on their characters (`SepLowerOn`) and their non-upper-case characters are fixed
-    by lower-casing (`NoLowerChangeOn`; needed because `Text.lower` is conditional on the presence of an
-    upper-case character). Alphanumeric-ness is preserved by `UnicodeFacts.lower_alnum`. -/
+    preserves separator-ness on their characters (`SepLowerOn`, the only oracle-relative hypothesis besides
+    `UnicodeFacts`). Alphanumeric-ness is preserved by `UnicodeFacts.lower_alnum`; the lower-cased arrays are
+    equal by assumption, and `Text.lower` produces exactly those (it lower-cases every character,
+    unconditionally). -/
 theorem tokenizeQuery_of_lower_eq (E : Env) (hU : UnicodeFacts E.U E.K) (s s' : List Nat)
     (h : (normChars E s').map E.U.lower1 = (normChars E s).map E.U.lower1)
-    (hsl : SepLowerOn E (normChars E s ++ normChars E s'))
-    (hnl : NoLowerChangeOn E (normChars E s ++ normChars E s')) :
-    (tokenizeQuery Gen.srcProg E s').sameUpToSource (tokenizeQuery Gen.srcProg E s) := by
-  apply tokenizeQuery_congr_views E s s'
-  · have := congrArg List.length h
-    simpa using this
-  · exact map_via_lower E _ _ _ h hsl
-  · exact map_via_lower E _ _ _ h (fun c _ => hU.lower_alnum c)
-  · rw [lowerChars_eq_map E _ (fun c hc => hnl c (List.mem_append_right _ hc)),
-      lowerChars_eq_map E _ (fun c hc => hnl c (List.mem_append_left _ hc)), h]
+    (hsl : SepLowerOn E (normChars E s ++ normChars E s')) :
+    (tokenizeQuery Gen.srcProg E s').sameUpToSource (tokenizeQuery Gen.srcProg E s) :=
+  tokenizeQuery_congr_views E s s' (map_via_lower E _ _ _ h hsl)
+    (map_via_lower E _ _ _ h (fun c _ => hU.lower_alnum c)) h
 
 theorem tokenizeRecord_of_lower_eq (E : Env) (hU : UnicodeFacts E.U E.K) (s s' : List Nat)
     (h : (normChars E s').map E.U.lower1 = (normChars E s).map E.U.lower1)
-    (hsl : SepLowerOn E (normChars E s ++ normChars E s'))
-    (hnl : NoLowerChangeOn E (normChars E s ++ normChars E s')) :
-    (tokenizeRecord Gen.srcProg E s').sameUpToSource (tokenizeRecord Gen.srcProg E s) := by
-  apply tokenizeRecord_congr_views E s s'
-  · have := congrArg List.length h
-    simpa using this
-  · exact map_via_lower E _ _ _ h hsl
-  · exact map_via_lower E _ _ _ h (fun c _ => hU.lower_alnum c)
-  · rw [lowerChars_eq_map E _ (fun c hc => hnl c (List.mem_append_right _ hc)),
-      lowerChars_eq_map E _ (fun c hc => hnl c (List.mem_append_left _ hc)), h]
+    (hsl : SepLowerOn E (normChars E s ++ normChars E s')) :
+    (tokenizeRecord Gen.srcProg E s').sameUpToSource (tokenizeRecord Gen.srcProg E s) :=
+  tokenizeRecord_congr_views E s s' (map_via_lower E _ _ _ h hsl)
+    (map_via_lower E _ _ _ h (fun c _ => hU.lower_alnum c)) h
 
 /-- normalised characters of two mark-free re-casings of each other agree up to case -/
 theorem normChars_recase (E : Env) (hC : ComposeClosed E.T.compose = true) (hF : FoldClosed E.T.reduce = true)
